@@ -7,9 +7,11 @@ import (
 	"flag"
 	"fmt"
 	"math/rand"
+	"runtime"
 	"sort"
 	"strings"
 	"sync"
+	"sync/atomic"
 	"time"
 
 	"github.com/sheerbytes/sheerbytes/internal/app"
@@ -482,4 +484,80 @@ func admFmt(a admAct) string {
 		return "Tick(+11min>TTL)"
 	}
 	return a.A + "(" + a.P + ")"
+}
+
+// ---- C12 under free-running concurrency ------------------------------------------------------------
+//
+// The gated replay performs one dispatch at a time.  In the running host the signaling read loop
+// (accepts, departures) and the goroutines of transfers that have just ended all call the scheduler,
+// possibly at the same moment.  Here the real SnapshotSender runs with a transfer function that
+// counts how many of its invocations are in progress; batches of transfers end together while the
+// read loop keeps admitting receivers.  More invocations in progress than max-receivers is the
+// violation; every admitted receiver must also be served in the end (nobody lost).
+func AdmissionStress(args []string) {
+	fs := flag.NewFlagSet("admission-stress", flag.ExitOnError)
+	rounds := fs.Int("rounds", 200, "rounds")
+	shard := fs.Int("shard", 0, "shard")
+	shards := fs.Int("shards", 1, "shards")
+	seed := fs.Int64("seed", 1, "seed")
+	fs.Parse(args)
+	res := &Result{Extra: map[string]any{}}
+	over, lost := 0, 0
+	for round := 0; round < *rounds; round++ {
+		if round%*shards != *shard {
+			continue
+		}
+		maxRecv := 1 + (round+int(*seed))%3
+		n := 3*maxRecv + 4 + round%4
+		var running, peak, served atomic.Int64
+		fn := func(ctx context.Context, peer string) error {
+			cur := running.Add(1)
+			for {
+				p := peak.Load()
+				if cur <= p || peak.CompareAndSwap(p, cur) {
+					break
+				}
+			}
+			// transfers end in batches: wait (briefly) until every slot is busy, then all return at about the same time
+			end := time.Now().Add(300 * time.Microsecond)
+			for running.Load() < int64(maxRecv) && time.Now().Before(end) {
+				runtime.Gosched()
+			}
+			running.Add(-1)
+			served.Add(1)
+			return nil
+		}
+		v := app.VerifNewSender(maxRecv, time.Hour, fn)
+		if round%2 == 0 {
+			v.SetOnChange(runtime.Gosched) // the CLI logs its state here (I/O)
+		}
+		ctx, cancel := context.WithCancel(context.Background())
+		// the signaling read loop: receivers join and accept one after the other while transfers start and end
+		for i := 0; i < n; i++ {
+			p := fmt.Sprintf("r%d", i)
+			v.Join(p)
+			v.Accept(ctx, p)
+		}
+		deadline := time.Now().Add(5 * time.Second)
+		for served.Load() < int64(n) && time.Now().Before(deadline) {
+			time.Sleep(200 * time.Microsecond)
+		}
+		res.Behaviours++
+		res.Steps += n
+		if pk := peak.Load(); pk > int64(maxRecv) {
+			over++
+			res.AddViolation(map[string]any{"kind": "more_transfers_running_than_max_receivers", "via": "admission-stress"},
+				map[string]any{"max_receivers": maxRecv, "receivers": n, "transfers_running_at_once": pk, "round": round})
+		}
+		if served.Load() < int64(n) {
+			lost++
+			res.AddViolation(map[string]any{"kind": "accepted_receiver_never_served", "via": "admission-stress"},
+				map[string]any{"max_receivers": maxRecv, "receivers": n, "served": served.Load(), "round": round, "state": v.Snap()})
+		}
+		cancel()
+	}
+	res.Distinct = res.Behaviours
+	res.Extra["rounds_over_capacity"] = over
+	res.Extra["rounds_with_unserved_receivers"] = lost
+	res.Print()
 }
